@@ -273,7 +273,7 @@ Section IsGG.
     destruct Heq as [Hne|[Heq <-]].
     2:{ rewrite Heq. cbn [bind_true]. rewrite Nat.eqb_refl. reflexivity. }
     rewrite Hne. cbn [bind_true].
-    destruct (gis_gerr i ci vb j (S n) Ei Gb) as [b1 [R1 [T1 F1]]].
+    destruct (gis_gerr i ci vb j (S (S n)) Ei Gb) as [b1 [R1 [T1 F1]]].
     rewrite R1. destruct b1; cbn [bind_true].
     { rewrite (T1 eq_refl), Nat.eqb_refl. reflexivity. }
     specialize (F1 eq_refl).
@@ -292,7 +292,7 @@ Section IsGG.
       assert (Uo : unwrap_val st (VG o) = VNil) by (simpl; rewrite Eo; exact Fo).
       rewrite Uo.
       assert (Go : gv st (VG o) = Some o) by (simpl; rewrite Eo; reflexivity).
-      destruct (gis_gerr o co vb j n Eo Gb) as [b2 [R2 [T2 F2]]].
+      destruct (gis_gerr o co vb j (S n) Eo Gb) as [b2 [R2 [T2 F2]]].
       rewrite (origin_root st o co Eo Fo) in *.
       (* VG o == target *)
       assert (Hoeq : iface_eq (VG o) vb = Ok (match vb with VG k => Nat.eqb o k | _ => false end)).
@@ -312,3 +312,79 @@ Section IsGG.
           -- rewrite (origin_root st j cj' Ej' Fj'). apply Nat.eqb_neq in Hoj. rewrite Hoj. reflexivity.
   Qed.
 End IsGG.
+
+(* ---------------------------------------------------------------- foreign targets *)
+(* e.srcError == err decided without panic: same dynamic type, comparable, equal payload *)
+Definition serr_match (s vb : val) : bool :=
+  match s, vb with
+  | VF t c p _, VF t' c' p' _ => N.eqb t t' && Bool.eqb c c' && c && N.eqb p p'
+  | _, _ => false
+  end.
+
+Section IsForeign.
+  Variable st : store.
+  Hypothesis W : wf st.
+
+  Lemma gis_foreign i ci t c p u f :
+    nth_error st i = Some ci ->
+    gerr_is_gen true (S f) st i (VF t c p u) = Ok (serr_match (g_serr (c_g ci)) (VF t c p u)).
+  Proof.
+    intros Ei. rewrite gis_S, Ei. cbv zeta.
+    assert (Ex : extract_fref st (VF t c p u) = VNil) by reflexivity. rewrite Ex.
+    assert (Hs : (if is_nil (g_serr (c_g ci)) then Ok false
+                  else if true && negb (comparable (g_serr (c_g ci))) then Ok false
+                       else iface_eq (g_serr (c_g ci)) (VF t c p u))
+                 = Ok (serr_match (g_serr (c_g ci)) (VF t c p u))).
+    { destruct (g_serr (c_g ci)) as [|k|k|t0 c0 p0 u0]; try reflexivity.
+      simpl. destruct c0; simpl.
+      - destruct (N.eqb t0 t); simpl; [|reflexivity]. destruct c; simpl; [|reflexivity].
+        rewrite andb_true_r. reflexivity.
+      - rewrite !andb_false_r. reflexivity. }
+    destruct (W i ci Ei) as [Fi Si _ | o co Fi Eo _ _ _ Ni Pi].
+    - rewrite Fi in *. rewrite Hs. simpl. destruct (g_isfac (c_g ci)); simpl;
+        destruct (serr_match (g_serr (c_g ci)) (VF t c p u)); reflexivity.
+    - rewrite Fi, Ni in *. rewrite Hs. simpl.
+      destruct (serr_match (g_serr (c_g ci)) (VF t c p u)); reflexivity.
+  Qed.
+
+  (* errors.Is(gerror value, foreign value): true exactly when the recorded converted error
+     equals the target; never a panic (repaired code) *)
+  Lemma errors_is_gf va i ci t c p u :
+    gv st va = Some i -> nth_error st i = Some ci ->
+    errors_is st va (VF t c p u) = Ok (serr_match (g_serr (c_g ci)) (VF t c p u)).
+  Proof.
+    intros Ga Ei. destruct (gv_cell _ _ _ Ga) as [ci' [Ei' Aa]]. rewrite Ei in Ei'. injection Ei' as <-.
+    unfold errors_is, errors_is_gen.
+    assert (Na : is_nil va = false) by (destruct va; simpl in Aa; try discriminate; reflexivity).
+    rewrite Na. simpl orb. cbv iota. unfold is_fuel.
+    replace (4 + length st + val_depth va + val_depth (VF t c p u))
+      with (S (S (S (S (length st + val_depth va + val_depth (VF t c p u)))))) by lia.
+    generalize (length st + val_depth va + val_depth (VF t c p u)). intros n.
+    rewrite loop_S, Aa.
+    assert (Hne : (if comparable (VF t c p u) then iface_eq va (VF t c p u) else Ok false) = Ok false).
+    { destruct va; simpl in Aa; try discriminate; simpl; destruct c; reflexivity. }
+    rewrite Hne. cbn [bind_true]. rewrite (gis_foreign i ci t c p u _ Ei).
+    destruct (serr_match (g_serr (c_g ci)) (VF t c p u)) eqn:M; cbn [bind_true]; [reflexivity|].
+    assert (Ua : unwrap_val st va = g_fref (c_g ci)).
+    { destruct va; simpl in Aa; try discriminate; injection Aa as ->; simpl; rewrite Ei; reflexivity. }
+    rewrite Ua.
+    destruct (W i ci Ei) as [Fi Si _ | o co Fi Eo Fo So _ Ni Pi]; rewrite Fi; [reflexivity|].
+    rewrite loop_S. cbn [as_gerror].
+    assert (Hne2 : (if comparable (VF t c p u) then iface_eq (VG o) (VF t c p u) else Ok false) = Ok false).
+    { simpl; destruct c; reflexivity. }
+    rewrite Hne2. cbn [bind_true]. rewrite (gis_foreign o co t c p u _ Eo), So.
+    simpl. rewrite Eo, Fo. reflexivity.
+  Qed.
+End IsForeign.
+
+(* ---------------------------------------------------------------- foreign sources *)
+Lemma loop_foreign_src guard st vb tc :
+  (tc = comparable vb) ->
+  forall va f, pure va = true -> val_depth va <= f ->
+  exists b, errors_is_loop guard (S f) st va vb tc = Ok b /\ (is_gerr_val vb = true -> b = false)
+            /\ (va = VNil -> b = false).
+Proof.
+  intros Htc va. induction va as [| | |t c p u IH]; intros f P D; simpl in P; try discriminate.
+  - exists false. rewrite loop_S. simpl. destruct tc; destruct vb; simpl; auto.
+    + (* VNil == VNil can only arise when the target is nil; the loop is never entered with it *)
+      eexists. Abort.
